@@ -134,6 +134,7 @@ type c14case struct {
 	form  int // 0 direct, 1 derived table, 2 CTE, 3 row-scoped subquery, 4 immediate-function rejection
 	rows  int
 	imm   string
+	dup   bool // every row carries the same argument value: calls with equal arguments are still one call per row
 }
 
 var c14Forms = []string{"direct", "derived-table", "cte", "row-subquery", "immediate", "nested-from", "join-side", "awaited-by-outer-query", "join-right-side", "cte-over-nested-from", "nested-from-3d"}
@@ -235,6 +236,22 @@ func (p *c14) Init(tier string) {
 			}
 		}
 	}
+	// rows with equal arguments: "once per row" is not "once per distinct argument", whatever the
+	// overlap of the calls in time
+	for k, it := range c14Items {
+		if it.fn == 0 || it.once {
+			continue
+		}
+		for rows := 2; rows <= maxRows && rows <= 3; rows++ {
+			if tier == "quick" && rows > 2 {
+				continue
+			}
+			p.cases = append(p.cases, c14case{items: []int{k}, form: 0, rows: rows, dup: true})
+			if strings.HasPrefix(it.sql, "ASYNC.") && rows == 2 {
+				p.cases = append(p.cases, c14case{items: []int{0, k}, form: 0, rows: rows, dup: true})
+			}
+		}
+	}
 	for _, q := range []string{"ASYNC", "SPIN", "SPINASYNC"} {
 		for _, f := range []string{"TO_LOWER('A')", "GETVAR('k')", "SUM(a)", "CONSTANT('c')", "HIMM_LATE(a)"} {
 			p.cases = append(p.cases, c14case{form: 4, rows: 2, imm: q + "." + f})
@@ -290,10 +307,14 @@ func (p *c14) build(c *c14case) (mk func() map[string]any, sql string, argCol st
 		sql = "SELECT " + strings.Join(outer, ", ") + " FROM (SELECT " + list + " FROM t) AS d"
 	}
 	rows := c.rows
+	dup := c.dup
 	mk = func() map[string]any {
 		t := []any{}
 		for i := 0; i < rows; i++ {
 			row := map[string]any{"id": float64(i), "a": float64(10 + i)}
+			if dup {
+				row["a"] = 10.0
+			}
 			row["items"] = []any{map[string]any{"id": float64(100 + i), "b": float64(20 + i)}}
 			t = append(t, row)
 		}
@@ -330,6 +351,9 @@ func (p *c14) expected(c *c14case) []string {
 	var out []string
 	for i := 0; i < c.rows; i++ {
 		arg := float64(10 + i)
+		if c.dup {
+			arg = 10
+		}
 		id := float64(i)
 		if c.form == 3 {
 			arg = float64(20 + i)
@@ -390,7 +414,11 @@ func (p *c14) sig(c *c14case, mode string) string {
 	if c.form == 4 {
 		names = []string{c.imm}
 	}
-	return fmt.Sprintf("C14|%s|%s|%s", c14Forms[c.form], strings.Join(names, "+"), mode)
+	form := c14Forms[c.form]
+	if c.dup {
+		form += "-equal-arguments"
+	}
+	return fmt.Sprintf("C14|%s|%s|%s", form, strings.Join(names, "+"), mode)
 }
 
 func (p *c14) RunCase(i int) *core.CaseResult {
@@ -504,9 +532,14 @@ func (p *c14) RunCase(i int) *core.CaseResult {
 				if c.form == 3 {
 					arg = int64(20 + row)
 				}
+				want := n
+				if c.dup {
+					arg = 10
+					want = n * c.rows
+				}
 				kk := key{it.fn, arg}
-				if starts[kk] != n {
-					return fail("invocations", fmt.Sprintf("function %d invoked %d times for argument %d, want %d (once per row per call)", it.fn, starts[kk], arg, n))
+				if starts[kk] != want {
+					return fail("invocations", fmt.Sprintf("function %d invoked %d times for argument %d, want %d (once per row per call)", it.fn, starts[kk], arg, want))
 				}
 				if it.waited && endsAfter[kk] > 0 {
 					return fail("not-awaited", fmt.Sprintf("function %d(%d): a call that must be awaited completed after Exec returned", it.fn, arg))
